@@ -127,6 +127,59 @@ class Ctx(object):
             self.violation(rule, key, str(r), None, n_points)
         return False
 
+    # ---- shared sub-rules (computed once per source hash, merged into every property that includes them)
+    def include(self, name, fn):
+        """run fn(sub_ctx) once per tree hash; merge its obligations into this check. The cached record is keyed by the
+        hash of /repo's sources (and the extractor binaries), so it is only ever reused for byte-identical sources."""
+        _ = self.prog  # forces fact extraction -> hash
+        d = os.path.join(facts.CACHE, self._src_hash)
+        path = os.path.join(d, 'shared-%s-%s.json' % (name, self.tier))
+        rec = None
+        with facts.Lock(os.path.join(facts.CACHE, 'lock.shared-%s' % name)):
+            if os.path.exists(path):
+                try:
+                    with open(path, encoding='utf-8') as fh:
+                        rec = json.load(fh)
+                except (OSError, ValueError):
+                    rec = None
+            if rec is None:
+                sub = Ctx(self.pid, self.tier, self.seed)
+                sub._prog, sub._src_hash, sub._mir = self._prog, self._src_hash, self._mir
+                t0 = time.time()
+                try:
+                    fn(sub)
+                except Exception as ex:
+                    traceback.print_exc()
+                    sub.fail_closed.append(('CHECKER-ERROR:%s' % name, 'internal', 'shared rule %s crashed: %r' % (name, ex)))
+                rec = {'rules': sub.rules, 'violations': [list(v[:3]) + [v[3]] for v in sub.violations], 'fail_closed': [list(f) for f in sub.fail_closed],
+                       'obligations': sub.obligations, 'discharged': sub.discharged, 'evaluations': sub.evaluations, 'samples': sub.samples[:6],
+                       'assumptions': sub.assumptions, 'not_decided': sub.not_decided, 'wall_s': time.time() - t0}
+                os.makedirs(d, exist_ok=True)
+                tmp = path + '.tmp%d' % os.getpid()
+                with open(tmp, 'w', encoding='utf-8') as fh:
+                    json.dump(rec, fh, ensure_ascii=False, default=str)
+                os.rename(tmp, path)
+        for k, r in rec['rules'].items():
+            cur = self.rules.setdefault(k, {'instances': 0, 'points': 0, 'what': r.get('what', '')})
+            cur['instances'] += r['instances']
+            cur['points'] += r['points']
+            if not cur['what']:
+                cur['what'] = r.get('what', '')
+        self.obligations += rec['obligations']
+        self.discharged += rec['discharged']
+        self.evaluations += rec['evaluations']
+        for v in rec['violations']:
+            self.violations.append((v[0], v[1], v[2], v[3]))
+        for f in rec['fail_closed']:
+            self.fail_closed.append(tuple(f))
+        for s_ in rec['samples']:
+            if len(self.samples) < 40:
+                self.samples.append(s_)
+        for a in rec['assumptions']:
+            if a not in self.assumptions:
+                self.assumptions.append(a)
+        self.notes.append('shared rule %s (%d obligations, computed in %.1fs for source hash %s)' % (name, rec['obligations'], rec['wall_s'], self._src_hash))
+
     # ---- finish
     def finish(self, explanation, level='other'):
         known = load_known()
